@@ -166,3 +166,4 @@ package conn
 //@   loop 1 invariant cap: forall(k, (has(c.channelsIdx, k) && c.channelsIdx[k] != nil) ==> len(c.channelsIdx[k].recving) <= c.channelsIdx[k].desc.RecvMessageCapacity)
 //@   loop 2 invariant t: true
 //@   atcall MConnection.onReceive known: has(c.channelsIdx, arg0) && c.channelsIdx[arg0] != nil && len(arg1) <= c.channelsIdx[arg0].desc.RecvMessageCapacity
+//@   atcall MConnection.onReceive exact: arg0 == pkt.PacketMsg.ChannelID
